@@ -56,6 +56,7 @@ type Case struct {
 	Doc2   *Doc              `json:"doc2"`
 	Env    map[string]string `json:"env"`
 	Texts  map[string]string `json:"texts"`  // hand-written renderings of Doc (instead of the printers')
+	Texts2 map[string]string `json:"texts2"` // hand-written renderings of Doc2: ANOTHER SPELLING of the same document
 	NoLoad bool              `json:"noload"` // shape: only the type is of interest (white-box run)
 	Props  [][2]string       `json:"props"`  // env cases: lines of a properties file
 	// conc: every member is loaded sequentially once, then all members are loaded Rounds times each
@@ -508,7 +509,9 @@ func runCase(c Case, dir string) (out Out) {
 	}
 	out.Texts = texts
 	if c.Doc2 != nil {
-		if out.Texts2, err = render(c.Doc2, false); err != nil {
+		if c.Texts2 != nil {
+			out.Texts2 = c.Texts2
+		} else if out.Texts2, err = render(c.Doc2, false); err != nil {
 			out.Fail = "render doc2: " + err.Error()
 			return
 		}
